@@ -81,6 +81,39 @@ DeserElem(ss, k, occ, kind) ==
   IN IF missing THEN Res(FALSE, FALSE, 0, 0)
      ELSE Plus(Plus(attrRes[Len(occ.attrs)], textRes), kidsRes)
 
+-----------------------------------------------------------------------------
+(* the domains of C02 and C13 *)
+\* per position over all occurrences (as TyOf merges them)
+HasData(occ) == \E j \in 1..Len(occ.items) : occ.items[j].kind = "text" /\ occ.items[j].data
+HasKids(occ) == \E j \in 1..Len(occ.items) : IsEl(occ.items[j])
+NamesOfKids(occs) == {n \in UNION {{occs[o].items[j].name : j \in {k \in 1..Len(occs[o].items) : IsEl(occs[o].items[k])}} : o \in 1..Len(occs)} : TRUE}
+NamesOfAttrs(occs) == UNION {{occs[o].attrs[j] : j \in 1..Len(occs[o].attrs)} : o \in 1..Len(occs)}
+AttrLocal(a) == IF StartsWithXmlns(a) THEN a ELSE RemoveNamespace(a)
+NoClash(S, Local(_)) == \A x, y \in S : Local(x) = Local(y) => x = y
+\* repeated children are adjacent in one occurrence
+Adjacent(occ) ==
+  LET es == Elems(occ.items)
+  IN \A i, j \in 1..Len(es) : (i < j /\ es[i].name = es[j].name) => \A k \in i..j : es[k].name = es[i].name
+
+RECURSIVE PosC02(_)
+PosC02(occs) ==
+  /\ \A o \in 1..Len(occs) : ~(HasData(occs[o]) /\ HasKids(occs[o]))          \* data-oriented
+  /\ NoClash(NamesOfKids(occs), RemoveNamespace)                               \* no clash after prefix removal
+  /\ NoClash(NamesOfAttrs(occs), AttrLocal)
+  /\ \A n \in NamesOfKids(occs) \cup NamesOfAttrs(occs) : n # <<>> /\ LetterBeforeDigit(n) /\ NameCharsOk(n)
+  /\ \A n \in NamesOfKids(occs) : PosC02(FlatKids(occs, n))
+
+HasColon(n) == \E i \in 1..Len(n) : n[i] = ":"
+XmlnsStr == <<"x","m","l","n","s">>
+RECURSIVE PosC13(_)
+PosC13(occs) ==
+  /\ \A o \in 1..Len(occs) : ~(HasData(occs[o]) /\ HasKids(occs[o]))          \* no mixed content
+  /\ \A n \in NamesOfKids(occs) \cup NamesOfAttrs(occs) : ~HasColon(n) /\ n # XmlnsStr /\ LetterBeforeDigit(n) /\ NameCharsOk(n)
+  /\ NamesOfKids(occs) \cap NamesOfAttrs(occs) = {}                            \* attribute names distinct from child names
+  /\ \A o \in 1..Len(occs) : Adjacent(occs[o])                                 \* repeated children adjacent
+  /\ \A n \in NamesOfKids(occs) : PosC13(FlatKids(occs, n))
+
+
 \* the document element into the first struct
 DeserDoc(ss, root, kind) == IF ss = <<>> THEN Res(FALSE, FALSE, 0, 0) ELSE DeserElem(ss, 1, root, kind)
 =============================================================================
